@@ -50,17 +50,22 @@ func (f *Rplacd) Call(s *slip.Scope, args slip.List, depth int) (result slip.Obj
 	if !ok || len(list) == 0 {
 		slip.TypePanic(s, depth, "cons", args[0], "cons", "list")
 	}
+	cdr := args[1]
+	if cdr == nil {
+		// nil is the empty list and not a dotted tail.
+		cdr = slip.List{}
+	}
 	if 1 < len(list) {
 		list = list[:2]
-		if a2, ok2 := args[1].(slip.List); ok2 {
+		if a2, ok2 := cdr.(slip.List); ok2 {
 			list = append(list[:1], a2...)
 		} else {
-			list[1] = slip.Tail{Value: args[1]}
+			list[1] = slip.Tail{Value: cdr}
 		}
-	} else if a2, ok2 := args[1].(slip.List); ok2 {
+	} else if a2, ok2 := cdr.(slip.List); ok2 {
 		list = append(list, a2...)
 	} else {
-		list = append(list, slip.Tail{Value: args[1]})
+		list = append(list, slip.Tail{Value: cdr})
 	}
 	return list
 }
